@@ -24,7 +24,7 @@ type c11Case struct {
 
 func checkC11(c *Ctx) {
 	reps := c.Pick(40, 300)
-	c.rule = fmt.Sprintf("repetition monitor: every program of a corpus aimed at hash-map iteration sites (dictionary equality / 包含 / 寻找 with >=3 keys, also with entries mixing equal, different, ill-typed and non-comparable values (objects) so that two entries could each decide the outcome, 解析JSON of objects with >=5 keys then display / iterate / regenerate, import-all with colliding export names across two modules, selective imports, objects of types with many defaults, input expressions that fail in two places, uncaught errors raised inside nested calls, five HTTP request / response shapes - distinct names, names differing only in letter case in query and header map, repeated names, a response with case-variant header keys, a response whose default headers are extended - each served repeatedly through ZnHttpHandler) plus samples of the generated corpora of C01/C02/C07/C09/C12 is executed %d times in one process; result, display trace and error text must be identical across repetitions. Order monitor: the left dictionary of a comparison (为 / 不为 / 包含 / 寻找) is rebuilt in four insertion orders of the same entries (one of them an object, one differing), the answer - a value or an error code - must be the same for all. A canary ranges over a 6-key Go map the same number of times and records how many distinct orders it saw (shows that the runtime's randomisation was live). distinct_nontrivial = distinct (family, program) with at least one dictionary / module / object in play", reps)
+	c.rule = fmt.Sprintf("repetition monitor: every program of a corpus aimed at hash-map iteration sites (dictionary equality / 包含 / 寻找 with >=3 keys, also with entries mixing equal, different, ill-typed and non-comparable values (objects) so that two entries could each decide the outcome, 解析JSON of objects with >=5 keys then display / iterate / regenerate, import-all with colliding export names across two modules, selective imports, a standard library imported twice / item by item / from two modules of one program, objects of types with many defaults, input expressions that fail in two places, uncaught errors raised inside nested calls, five HTTP request / response shapes - distinct names, names differing only in letter case in query and header map, repeated names, a response with case-variant header keys, a response whose default headers are extended - each served repeatedly through ZnHttpHandler) plus samples of the generated corpora of C01/C02/C07/C09/C12 is executed %d times in one process; result, display trace and error text must be identical across repetitions. Order monitor: the left dictionary of a comparison (为 / 不为 / 包含 / 寻找) is rebuilt in four insertion orders of the same entries (one of them an object, one differing), the answer - a value or an error code - must be the same for all. A canary ranges over a 6-key Go map the same number of times and records how many distinct orders it saw (shows that the runtime's randomisation was live). distinct_nontrivial = distinct (family, program) with at least one dictionary / module / object in play", reps)
 	c.assumptions = []string{"each repetition draws fresh hash-map iteration orders from the Go runtime (canary reported in the evidence)", "取随机数 is never called"}
 	rng := c.Rand("c11")
 	cases := []c11Case{}
@@ -183,6 +183,27 @@ func checkC11(c *Ctx) {
 	for n, src := range imports {
 		s := src
 		add("imports", n, "", func(r *Req) { r.Src = nil; r.Main = "main.zn"; r.Files = files(s); r.Libs = true })
+	}
+	// the same library reached more than once in one execution (twice in one file, item by item,
+	// from two modules): whatever the verdict is, it names the same thing every time
+	modC := "导入《@JSON》\n导入《@文件》\n如何编？\n\t输入值\n\t输出（生成JSON：值）\n"
+	modD := "导入《@文件》\n导入《@JSON》\n如何读？\n\t输入文\n\t输出（解析JSON：文）\n"
+	twice := map[string]string{
+		"std-twice":              "导入《@JSON》\n导入《@JSON》\n输出（生成JSON：【“a” = 1】）\n",
+		"std-twice-item-by-item": "导入《@JSON》之解析JSON\n导入《@JSON》之生成JSON\n输出（生成JSON：（解析JSON：“{\\\"a\\\":1}”））\n",
+		"std-file-item-by-item":  "导入《@文件》之读取文件\n导入《@文件》之写入文件\n导入《@文件》之读取目录\n输出 1\n",
+		"std-from-two-modules":   "导入“模丙”\n导入“模丁”\n输出（编：（读：“{\\\"k\\\":[1,2]}”））\n",
+		"std-main-and-module":    "导入《@JSON》\n导入“模丙”\n导入《@文件》\n输出【（编：【“a” = 1】），（解析JSON：“{}”）】\n",
+		"std-all-then-item":      "导入《@JSON》\n导入《@JSON》之生成JSON\n输出 1\n",
+	}
+	for n, src := range twice {
+		s := src
+		add("imports", n, "", func(r *Req) {
+			r.Src = nil
+			r.Main = "main.zn"
+			r.Files = []File{{Path: "main.zn", Data: widen([]byte(s))}, {Path: "模丙.zn", Data: widen([]byte(modC))}, {Path: "模丁.zn", Data: widen([]byte(modD))}}
+			r.Libs = true
+		})
 	}
 	// d. objects of a type with many defaults; error chains
 	var cls strings.Builder
